@@ -5,7 +5,7 @@ Real functions: Ridge2FoldCV.__init__ / fit / _2fold_cv (with its two nested los
 
 Matrix layer + assumed contract of the thin SVD (np.linalg.svd(M, full_matrices=False) = SVU(M), SVS(M, .), SVVT(M), singular values non-increasing and >= 0).
 Spec (regularised least squares on the numerically non-null directions, in SVD form):
-  W(M, Y, alpha) = V_n D(alpha) U_n^T Y,  n = #{i : s_i > rcond},  Tikhonov: D = diag(s_i / (s_i^2 + alpha)),  cut-off: D = diag(1 / s_i) on the first
+  W(M, Y, alpha) = V_n D(alpha) U_n^T Y,  n = #{i : s_i > rcond * s_0} (numerical rank: the cut is RELATIVE to the largest singular value, rcond = max(shape of X) * eps),  Tikhonov: D = diag(s_i / (s_i^2 + alpha)),  cut-off: D = diag(1 / s_i) on the first
   min(n, #{i : s_i > alpha}) directions;   cv_values[k] = (SCORE(X_2 W(X_1, y_1, a_k), y_2) + SCORE(X_1 W(X_2, y_2, a_k), y_1)) / 2 with a_k the (scaled) grid
   value; alpha_ = grid value at the arg-max; coef_ = W(X, y, a_best)^T; predict = X coef_^T.
 That the Tikhonov SVD form equals (M^T M + alpha I)^-1 M^T Y on the retained directions is the standard identity (cited, not derived here)."""
@@ -174,7 +174,7 @@ def extend_ext(ext):
 
 def W_spec(M, Y, alpha, method):
     """regularised least squares in SVD form on the numerically non-null directions"""
-    n = CNT(M, 2 if False else RCOND[0])
+    n = CNT(M, RCOND[0] * SVS(M, 0))
     V, Ut = T(SVVT(M)), T(SVU(M))
     if method == 'tikhonov':
         D = DG(z3.Lambda([i_], SVS(M, i_) / (SVS(M, i_) * SVS(M, i_) + alpha)), n)
@@ -250,16 +250,19 @@ def u_fit(method, atype, cv_given=False, parallel=False):
                     ok = C.decl().name() == 'T' and a8.arg(1).decl().name() == 'DG' and a6.arg(1).decl().name() == 'DG'
                 except Exception: ok = False
                 if ok:
-                    nn = CNT(Xm, rcond); ab_ = scaled(bb)
+                    rc0 = rcond * SVS(Xm, 0)      # numerical-rank cut of the full data: relative to the largest singular value
+                    nn = CNT(Xm, rc0); ab_ = scaled(bb)
                     ii = z3.Int('i!h')
                     Lfg = z3.Lambda([ii], f1[ii] * f2[ii]); Lsp = z3.Lambda([i_], SVS(Xm, i_) / (SVS(Xm, i_) * SVS(Xm, i_) + ab_))
                     i0 = I.fresh('i0', IntS); I.assume(And(0 <= i0, i0 < nn))
                     x0 = SVS(Xm, i0); y0 = x0 * x0 + ab_
-                    I.assume(And(CNT(Xm, rcond) <= kmin(Xm), Implies(And(0 <= i0, i0 < kmin(Xm)), (i0 < CNT(Xm, rcond)) == (x0 > rcond))))     # instances of the counting axioms at i0
-                    for nm, h in [('retained-directions-are-those-above-rcond', L == nn),
+                    I.assume(And(CNT(Xm, rc0) <= kmin(Xm), Implies(And(0 <= i0, i0 < kmin(Xm)), (i0 < CNT(Xm, rc0)) == (x0 > rc0))))     # instances of the counting axioms at i0
+                    for nm, h in [('retained-directions-are-those-above-rcond-times-the-largest-singular-value', L == nn),
                                   ('two-diagonal-scalings-merge', a8 == mul(Vn, DG(Lfg, L))),
                                   ('rcond-is-positive', rcond > 0),
-                                  ('retained-singular-value-is-above-rcond', x0 > rcond),
+                                  ('largest-singular-value-is-non-negative', SVS(Xm, 0) >= 0),
+                                  ('relative-cut-is-non-negative', rc0 >= 0),
+                                  ('retained-singular-value-is-above-the-cut', x0 > rc0),
                                   ('chosen-alpha-is-non-negative', ab_ >= 0),
                                   ('retained-singular-value-is-positive', x0 > 0),
                                   ('...and-so-is-its-square', x0 * x0 > 0)]:
